@@ -6,6 +6,19 @@ from . import c07
 def run(tier, only=None):
     chk = Check('C08', tier)
     jobs, (P, D, EP, EE) = c07.jobs_for(tier, only, 'c08')
+    if not only or 'sequence' in only or 'all' in only:
+        from gen import vss as V
+        from spec import wire_spec as W
+        seqs = [(0x04, (0, 0), (3, 7), 1), (0x0B, (0, 0, 0), (5, 2, 5), 4), (0x82, (0, 1, 0), (1, 0, 6), 2), (0x0A, (1, 0), (0, 4), 1)]
+        if tier == 'thorough':
+            seqs += [(c, (0, 0, 1, 0), (2, 9, 0, 3), 2) for c in sorted(W.VSS_TYPES)]
+        for code, modes, plens, cnt in seqs:
+            src, M = V.c08_sequence(code, modes, plens, cnt)
+            jobs.append(Job('c08.sequence.%s.%s' % (W.VSS_TYPES[code][0], '-'.join('%s%d' % ('i' if m == 0 else 's', p) for m, p in zip(modes, plens))),
+                            src, c07.SRC, unwind=max(70, M + 8), unwindset=WALKER, timeout=900, object_bits=12, backend='kissat',
+                            loop_policy=c07.codec_loop_policy(W.VSS_TYPES[code][0], cnt + 2),
+                            meta={'sequence': 'messages decoded one after the other at the same buffer address',
+                                  'datatype': W.VSS_TYPES[code][0], 'path_lengths': list(plens)}))
     chk.run(jobs)
     chk.assumptions = STD_ASSUME + [
         'bounds: (F) path length 0..%d, value 0..%d bytes; (E) every (path 0..%d, count 0..%d) pair; longer values outside the claim' % (P, D, EP, EE),
